@@ -1,8 +1,8 @@
 #!/verif/.venv/bin/python
 # Replay of a solver counterexample against the unmodified code (no shims).
-# property=C16 kernel=kaiser_max label=k3:kaiser_one_ns_shorter_would_exceed
+# property=C16 kernel=phase_fp label=k4:fp_phase_below_2pi
 import sys
 sys.path[:0] = ["/repo/pulser-core", "/repo/pulser-simulation", "/verif"]
 from symx.replay import replay
-sys.exit(replay(check='checks.c16', kernel='kaiser_max', shape={'max_val': 20.0, 'beta': 14.0, 'lo': 0.08213786593161485, 'hi': 0.10185095375520241},
-                assignment={'area': '89/1024'}, label='k3:kaiser_one_ns_shorter_would_exceed'))
+sys.exit(replay(check='checks.c16', kernel='phase_fp', shape={},
+                assignment={'x_bits': 13600870874658897920}, label='k4:fp_phase_below_2pi'))
